@@ -19,7 +19,8 @@ OUTPUT = "WireGen.v"
 ITEMS = ["writer_chunking_enabled (ClientRequest._create_writer test)", "client_get_methods", "client_post_methods",
          "default_accept", "default_content_type", "empty_body_status", "_update_transfer_encoding shape",
          "_update_body_from_data shape", "_send Connection block shape", "_prepare_headers keep-alive shape",
-         "HttpResponseParser close default shape", "response empty_body rule"]
+         "HttpResponseParser close default shape", "response empty_body rule",
+         "write_eof_only_after_success (_write_bytes try/except/else)"]
 
 CR = "aiohttp/client_reqrep.py"
 
@@ -192,6 +193,29 @@ def _empty_body_status():
     return " || ".join(terms)
 
 
+def _write_eof_placement():
+    """ClientRequest._write_bytes: `await writer.write_eof()` must occur exactly once; inside the `else:` of the
+    try around the body write (only after success) -> true; after the try statement (also after a handled
+    failure of the body source) -> false; anything else is not recognised."""
+    fn = core.find_function(CR, "_write_bytes", cls="ClientRequest")
+    def is_eof(n):
+        return (isinstance(n, ast.Await) and isinstance(n.value, ast.Call) and isinstance(n.value.func, ast.Attribute)
+                and n.value.func.attr == "write_eof")
+    total = sum(1 for n in ast.walk(fn) if is_eof(n))
+    tries = [n for n in fn.body if isinstance(n, ast.Try)]
+    if total != 1 or len(tries) != 1:
+        raise TranslatorError(f"_write_bytes: {total} write_eof() calls, {len(tries)} top-level try statements")
+    t = tries[0]
+    if not any("write_with_length" in ast.unparse(x) for x in t.body):
+        raise TranslatorError("_write_bytes: the try does not guard the body write")
+    if any(is_eof(n) for x in t.orelse for n in ast.walk(x)):
+        return True
+    after = fn.body[fn.body.index(t) + 1:]
+    if any(is_eof(n) for x in after for n in ast.walk(x)):
+        return False
+    raise TranslatorError("_write_bytes: write_eof() is neither in the else: of the try nor after it")
+
+
 def generate() -> str:
     out = []
     test, body = _chunking_test()
@@ -238,4 +262,8 @@ def generate() -> str:
         raise TranslatorError(f"feed_data: empty_body rule is {eb}")
     out.append("(* feed_data: empty_body = code in EMPTY_BODY_STATUS_CODES or bool(code and method and method in EMPTY_BODY_METHODS) *)\n"
                "Definition response_empty_body_rule_is_status_or_head : bool := true.\n")
+    ok = _write_eof_placement()
+    out.append("(* ClientRequest._write_bytes: writer.write_eof() runs only in the `else:` of the try around the body write,\n"
+               "   i.e. not after a handled OSError / Exception of the body source *)\n"
+               f"Definition write_eof_only_after_success : bool := {'true' if ok else 'false'}.\n")
     return "\n".join(out)
